@@ -71,8 +71,9 @@ pub open spec fn dd_id_ok() -> bool { vstd::laws_cmp::obeys_cmp::<AbstractIdenti
 /// HYPOTHESES of property C03 on the value domain T (what "merge" of the element domain must satisfy for the
 /// pointer/value-set merge to satisfy C03).  DISCHARGED for T = IntervalDomain by units interval_domain /
 /// interval_arith (`AbstractDomain for IntervalDomain::merge`: the three `forall` clauses of its contract, under
-/// its precondition = `merge_pre_spec`; `r.w() == self.w()` gives the size clause), for T = BitvectorDomain by
-/// unit bitvector.
+/// its precondition = `merge_pre_spec`; `r.w() == self.w()` gives the size clause).  (For T = BitvectorDomain unit
+/// bitvector proves the structural contract "equal operands -> that operand, different operands -> Top of that size",
+/// from which the clauses follow for the obvious gamma; they are not stated there in gamma form.)
 ///   (over)   merge over-approximates both operands,
 ///   (stable) merging with something already absorbed does not enlarge the represented set,
 ///   (clone)  clone() returns its argument,
